@@ -59,9 +59,11 @@ func (c *converters) Sync() {
 	ingressConverter := ingress.NewIngressConverter(c.options, c.haproxy, changed)
 	gatewayConverter := gateway.NewGatewayConverter(c.options, c.haproxy, changed, ingressConverter)
 
+	// ingress converter first: it tracks the ingress that were just added,
+	// which might link them to resources that the gateway converter tracks.
 	needFullSync := changed.NeedFullSync ||
-		gatewayConverter.NeedFullSync() ||
-		ingressConverter.NeedFullSync()
+		ingressConverter.NeedFullSync() ||
+		gatewayConverter.NeedFullSync()
 	if needFullSync {
 		c.options.Tracker.ClearLinks()
 		c.haproxy.Clear()
